@@ -278,7 +278,8 @@ stored mode, up to spelling).  Every operation of `ikstep c` keeps it — whatev
 satisfies `J`; the one operation that could break it, a delete under a key equal to `c active.id`, is refused by the
 guards that look at what the collection finds. -/
 
-def A (c : String → String) (k : KSt) : Prop := k.changed = true → c k.active.id ∈ k.recs.map (·.1)
+def A (c : String → String) (k : KSt) : Prop :=
+  k.changed = true → k.active.id ≠ "" → c k.active.id ∈ k.recs.map (·.1)
 
 theorem kfindL_isSome_iff (l : List Rec) (key : String) : (kfindL l key).isSome = true ↔ key ∈ l.map (·.1) := by
   unfold kfindL
@@ -291,8 +292,8 @@ theorem kfindL_isSome_iff (l : List Rec) (key : String) : (kfindL l key).isSome 
     exact ⟨e, he, by simpa using hk⟩
 
 /-- the guards of `deleteMode`: a delete under ANY spelling of the key the active mode's id leads to is refused -/
-theorem ikdeleteMode_refuses {c : String → String} {k : KSt} (hin : c k.active.id ∈ k.recs.map (·.1)) {id : String}
-    (heq : c id = c k.active.id) (am : Bool) (d : DOpts) :
+theorem ikdeleteMode_refuses {c : String → String} {k : KSt} (hin : c k.active.id ∈ k.recs.map (·.1))
+    (hne : k.active.id ≠ "") {id : String} (heq : c id = c k.active.id) (am : Bool) (d : DOpts) :
     ikdeleteMode c k id am d = (k, .err .failedPrecondition) := by
   unfold ikdeleteMode
   by_cases ha : id = k.active.id
@@ -304,7 +305,7 @@ theorem ikdeleteMode_refuses {c : String → String} {k : KSt} (hin : c k.active
       rw [heq]
       cases hf : kfind k (c k.active.id) with
       | none => simp [hf] at hs
-      | some cur => simp
+      | some cur => simp [hne]
     rw [if_pos hna]
 
 theorem ikcreateOrAdd_A {c : String → String} {k : KSt} (h : A c k) (m : Mode) (cands : List String) :
@@ -316,21 +317,21 @@ theorem ikcreateOrAdd_A {c : String → String} {k : KSt} (h : A c k) (m : Mode)
     · exact h
     · split
       · exact h
-      · intro hch
-        obtain ⟨e, he, hk⟩ := List.mem_map.mp (h hch)
+      · intro hch hne
+        obtain ⟨e, he, hk⟩ := List.mem_map.mp (h hch hne)
         exact List.mem_map.mpr ⟨e, (mem_kinsert _ _ _ e).mpr (Or.inr he), hk⟩
 
 theorem A_kstore {c : String → String} {k : KSt} (h : A c k) (key : String) (m : Mode) :
     A c { k with recs := kstore key m k.recs } := by
-  intro hch
+  intro hch hne
   show _ ∈ (kstore key m k.recs).map (·.1)
   rw [keys_kstore]
-  exact h hch
+  exact h hch hne
 
 theorem A_kinsert {c : String → String} {k : KSt} (h : A c k) (key : String) (m : Mode) :
     A c { k with recs := kinsert key m k.recs } := by
-  intro hch
-  obtain ⟨e, he, hk⟩ := List.mem_map.mp (h hch)
+  intro hch hne
+  obtain ⟨e, he, hk⟩ := List.mem_map.mp (h hch hne)
   exact List.mem_map.mpr ⟨e, (mem_kinsert _ _ _ e).mpr (Or.inr he), hk⟩
 
 theorem ikupdateMode_A {c : String → String} {k : KSt} (h : A c k) (m : Mode) (mask : Option Mask) (w : WOpts) :
@@ -360,8 +361,8 @@ theorem ikupdateMode_A {c : String → String} {k : KSt} (h : A c k) (m : Mode) 
 
 theorem ikdeleteMode_A {c : String → String} {k : KSt} (h : A c k) (id : String) (am : Bool) (d : DOpts) :
     A c (ikdeleteMode c k id am d).1 := by
-  by_cases heq : k.changed = true ∧ c id = c k.active.id
-  · rw [ikdeleteMode_refuses (h heq.1) heq.2]
+  by_cases heq : k.changed = true ∧ k.active.id ≠ "" ∧ c id = c k.active.id
+  · rw [ikdeleteMode_refuses (h heq.1 heq.2.1) heq.2.1 heq.2.2]
     exact h
   · unfold ikdeleteMode ikdeleteBody
     split
@@ -374,10 +375,11 @@ theorem ikdeleteMode_A {c : String → String} {k : KSt} (h : A c k) (id : Strin
           · exact h
           · split
             · exact h
-            · intro hch
+            · intro hch hne0
               have hch' : k.changed = true := hch
-              have hne : c k.active.id ≠ c id := fun e => heq ⟨hch', e.symm⟩
-              obtain ⟨e, he, hk⟩ := List.mem_map.mp (h hch')
+              have hne0' : k.active.id ≠ "" := hne0
+              have hne : c k.active.id ≠ c id := fun e => heq ⟨hch', hne0', e.symm⟩
+              obtain ⟨e, he, hk⟩ := List.mem_map.mp (h hch' hne0')
               refine List.mem_map.mpr ⟨e, ?_, hk⟩
               unfold kerase
               exact List.mem_filter.mpr ⟨he, by simp [hk, hne]⟩
@@ -388,7 +390,7 @@ theorem ikchangeActive_A {c : String → String} {k : KSt} (hj : J c k.recs) (h 
   cases hf : kfind k (c id) with
   | none => exact h
   | some m =>
-    intro _
+    intro _ _
     have hmem : (c id, m) ∈ k.recs := kfindL_some hf
     have hkey : c id = c m.id := hj.kc _ hmem
     have hid : (if k.active.id ≠ m.id then { m with start := some now } else m).id = m.id := by split <;> rfl
@@ -424,7 +426,7 @@ theorem ikstep_A {c : String → String} {k : KSt} (hj : J c k.recs) (h : A c k)
     cases hf : kfind k (c m.id) with
     | none => exact h
     | some st =>
-      intro _
+      intro _ _
       exact (kfindL_isSome_iff _ _).mp (by show (kfind k (c m.id)).isSome = true; rw [hf]; rfl)
   | changeActive id now => exact ikchangeActive_A hj h id now
   | sChangeActive id now => simp only [ikstep]; split; exact h; exact ikchangeActive_A hj h id now
